@@ -335,6 +335,22 @@ def run(ctx):
                 ctx.evaluations += int(kv["n"])
                 ctx.nontrivial += int(kv["nontrivial"])
                 ctx.count("single_and_double_steps", int(kv["n"]))
+    # first settings of a fresh clock to the smallest valid times (sentinel + 1 .. sentinel + 70), at counter phases whose whole
+    # seconds equal that distance, read just before and at the next second
+    nfirst = 0
+    for k in range(1, 71):
+        for base in (0, 65536, 2**32):
+            for frac in (1, 500, 999):
+                m0 = base + k * 1000 + frac
+                T = I32MIN + k
+                for gap in (1000 - frac - 1 if frac < 999 else 0, 999, 1000):
+                    ops = [["new", m0, 64], ["set", T], ["adv", gap], ["read"]]
+                    nfirst += 1
+                    msg = replay_ops(ops)
+                    if msg:
+                        FAILS.append({"ops": ops, "message": msg})
+    ctx.evaluations += nfirst
+    ctx.count("first_settings_to_smallest_times", nfirst)
     # Hypothesis schedules
     sett = settings(max_examples=3000 if thorough else 400, stateful_step_count=200 if thorough else 60, deadline=None,
                     database=None, report_multiple_bugs=False, phases=[Phase.generate],
